@@ -63,7 +63,38 @@ def r_copyshape(f):
             whole = any(x[0] == "call" and x[2] == "data_mut" for x in walk(dst)) and any(x == ("param", 2) for x in walk(src))
         first_writes = writes
         ok = whole or (bool(guard_blocks) and all(any(gok in dom.get(w, set()) for _, gok, _ in guard_blocks) for w in first_writes) and bool(first_writes))
-        R.inst(b.ident, "size guard %s dominates every write (%d write calls)%s" % ([x[2] for x in guard_blocks], len(first_writes), " [single std slice copy of the whole buffer: std checks the lengths]" if whole else ""), ok)
+        if not ok and not guard_blocks:
+            # the whole job forwarded to one private helper that receives (self, src): judge the helper's own guard and writes
+            fw = [(t, f.crate_fn_for_call(fn)) for _, t, fn in b.calls() if fn and f.crate_fn_for_call(fn) is not None and f.crate_fn_for_call(fn).kind != "Closure"]
+            fw = [(t, hb) for t, hb in fw if not hb.trait_provided and not hb.impl_trait]
+            if len(fw) == 1 and not b.has_loop():
+                t, hb = fw[0]
+                def peeled(e):
+                    e = strip(e)
+                    while e[0] in ("ref", "refmut", "deref"):
+                        e = strip(e[1])
+                    return e
+                pos = {peeled(d.expr(a))[1]: i + 1 for i, a in enumerate(t["args"]) if peeled(d.expr(a))[0] == "param"}
+                if 1 in pos and 2 in pos:
+                    hd, hg, hdom = Dfx(hb), G(hb, f), hb.dominators()
+                    hguards = []
+                    for (gbi, op, lo, ro, okb) in hg.guards():
+                        txt = show(lo) + " " + show(ro)
+                        if op == "Eq" and ("len(" in txt or "size(" in txt) and any(x == ("param", pos[2]) for x in list(walk(lo)) + list(walk(ro))):
+                            hguards.append((gbi, okb, txt))
+                    hwrites = [bi for bi, t2, fn2 in hb.calls() if fn2 and fn2["name"] in WRITE_CALLS and (fn2.get("krate") == f.raw["crate"] or fn2.get("resolved_krate") == f.raw["crate"])]
+                    hrets = [rb for rb, bl in enumerate(hb.blocks) if bl["term"] and bl["term"]["k"] == "return" and not bl["cleanup"] and rb in hb.reachable(0)]
+                    if hguards and hwrites and all(any(gok in hdom.get(w, set()) for _, gok, _ in hguards) for w in hwrites) \
+                            and all(any(gok in hdom.get(rb, set()) or gok == rb for _, gok, _ in hguards) for rb in hrets):
+                        ok = True
+                        guard_blocks = [(g0, g1, g2 + " [in helper %s]" % hb.ident) for g0, g1, g2 in hguards]
+                        first_writes = hwrites
+        if ok and not whole and not any("[in helper" in x[2] for x in guard_blocks):
+            # a mismatch must panic for every input: no normal return bypasses the guard (an early return for the empty case
+            # placed before the assertion accepts a non-empty source)
+            rets = [rb for rb, bl in enumerate(b.blocks) if bl["term"] and bl["term"]["k"] == "return" and not bl["cleanup"] and rb in b.reachable(0)]
+            ok = all(any(gok in dom.get(rb, set()) or gok == rb for _, gok, _ in guard_blocks) for rb in rets)
+        R.inst(b.ident, "size guard %s dominates every write and every normal return (%d write calls)%s" % ([x[2] for x in guard_blocks], len(first_writes), " [single std slice copy of the whole buffer: std checks the lengths]" if whole else ""), ok)
         if not ok:
             R.fail(b.ident, "no-size-guard", "%s writes to the destination without a dominating check that the source has the same size (or a std slice copy of the whole buffer): a size mismatch must panic before anything is overwritten" % b.ident, b.where())
         # (ii) element-wise transfer: the destination comes from the receiver's rows, the source from the parameter
@@ -174,6 +205,38 @@ def r_flipshape(f):
         firsts = [bi for bi, t, fn in b.calls() if fn and fn["name"] in ("next", "next_back")]
         dom = b.dominators()
         ok = len(ends) == 1 and ends[0][0] == 0 and half_len(ends[0][1]) and len(lens) == 1 and all(lens[0] in dom.get(x, set()) and x != lens[0] for x in firsts)
+    if not ok and not cursors:
+        # index form: for r in 0..num_rows()/2 { self.swap_rows(r, num_rows() - 1 - r) }
+        d = Dfx(b)
+        def is_rows(e):
+            e = strip(e)
+            return e[0] == "call" and e[2] == "num_rows" and any(x == ("param", 1) for x in walk(e))
+        def is_item(e):
+            e = strip(e)
+            return e[0] == "field" and e[2] == 0 and any(x[0] == "call" and x[2] == "next" for x in walk(e))
+        ends = []
+        for bi, si, st in b.stmts():
+            if st["k"] == "assign" and st["rv"]["k"] == "agg" and (st["rv"].get("adt") or "").endswith("ops::Range") and len(st["rv"]["fields"]) == 2:
+                ends.append((const_usize(strip(d.expr(st["rv"]["fields"][0]))), strip(d.expr(st["rv"]["fields"][1]))))
+        sr = [t for _, t, fn in b.calls() if fn and fn["name"] == "swap_rows"]
+        okr = len(ends) == 1 and ends[0][0] == 0 and ends[0][1][0] == "bin" and ((ends[0][1][1] == "Div" and const_usize(strip(ends[0][1][3])) == 2) or (ends[0][1][1] == "Shr" and const_usize(strip(ends[0][1][3])) == 1)) and is_rows(ends[0][1][2])
+        oka = False
+        if len(sr) == 1 and len(sr[0]["args"]) == 3:
+            a1, a2 = strip(d.expr(sr[0]["args"][1])), strip(d.expr(sr[0]["args"][2]))
+            def mirror(x, y):
+                # y == num_rows - 1 - x, associated either way
+                y = strip(y)
+                if not (is_item(x) and y[0] == "bin" and y[1].startswith("Sub")):
+                    return False
+                l, r = strip(y[2]), strip(y[3])
+                if is_item(r) and l[0] == "bin" and l[1].startswith("Sub") and is_rows(l[2]) and const_usize(strip(l[3])) == 1:
+                    return True
+                if const_usize(r) == 1 and l[0] == "bin" and l[1].startswith("Sub") and is_rows(l[2]) and is_item(l[3]):
+                    return True
+                return False
+            oka = mirror(a1, a2) or mirror(a2, a1)
+        ok = okr and oka
+        steps = ["swap_rows(r, num_rows-1-r) for r in 0..num_rows/2"] if ok else steps
     R.inst(b.ident, "pairs next() with next_back() of one rows_mut() cursor and swaps the two rows (steps %s)" % sorted(set(steps)), ok)
     if not ok:
         R.fail(b.ident, "shape", "flip_rows no longer swaps the outermost remaining rows pairwise from one rows_mut() cursor (cursors: %d, steps: %s, swap_with_slice: %d)" % (len(cursors), sorted(set(steps)), len(sw)), b.where())
